@@ -31,6 +31,15 @@ func ZZ_C12_NeverLate() {
 	waited := zzrt.Int64()
 	zzrt.Assume(waited >= 0 && waited < 1<<61)
 	zzrt.ClockAdvance(time.Duration(waited))
+	// the subscriber may have been offline meanwhile: the session is resumed (with or
+	// without an in-flight expiry configured) and the in-flight replay runs first
+	if zzrt.Choice(2) == 1 {
+		q.Close()
+		q.inflightExpiry = time.Duration(zzrt.Choice(2)) * 30 * time.Second
+		zzrt.Assert(q.Init(&queue.InitOptions{CleanStart: false, Version: packets.Version5, ReadBytesLimit: 1 << 20, Notifier: n}) == nil, "resume-ok")
+		q.ReadInflight(2)
+		zzrt.Cover("resumed")
+	}
 	// a second element without expiry keeps Read from blocking when the first is dropped
 	q.Add(&queue.Elem{At: time.Now(), MessageWithID: &queue.Publish{Message: &gmqtt.Message{Topic: "b", QoS: 0}}})
 	rs, err := q.Read([]packets.PacketID{1, 2})
